@@ -381,7 +381,8 @@ func Variants(ci int) []Variant {
 		if ti%4 == 0 {
 			b.Core2 = true
 		}
-		mk(base, m, true).Core = true
+		jt := mk(base, m, true)
+		jt.Core = t.name == "APPEND" || t.name == "LOGIN" || t.name == "SEARCH-BODY"
 		for si := range t.slots {
 			for _, a := range argVars(si == len(t.slots)-1 && t.msg == 0 && t.slots[si].after == "\r\n", false) {
 				if a.Enc == "atom" {
